@@ -25,6 +25,7 @@ type Wit struct {
 	Idx    int  `json:"idx"`
 	T      int  `json:"t"`
 	Good   bool `json:"good"`
+	Up     int  `json:"up"` // Witness.Updated as abstract time; -1: never updated
 }
 type Upd struct {
 	Made  bool `json:"made"`
@@ -188,12 +189,20 @@ func specClass(res string) string {
 }
 
 type witSnap struct {
-	u, e   string
-	idx, t int
+	u, e       string
+	idx, t, up int
+}
+
+// Witness.Updated as abstract time (-1: zero value)
+func upOf(w *revocation.Witness) int {
+	if w.Updated.IsZero() {
+		return -1
+	}
+	return int(w.Updated.Unix() - timeBase)
 }
 
 func snap(w *revocation.Witness) witSnap {
-	return witSnap{w.U.String(), w.E.String(), int(w.SignedAccumulator.Accumulator.Index), int(w.SignedAccumulator.Accumulator.Time - timeBase)}
+	return witSnap{w.U.String(), w.E.String(), int(w.SignedAccumulator.Accumulator.Index), int(w.SignedAccumulator.Accumulator.Time - timeBase), upOf(w)}
 }
 
 func main() {
@@ -207,6 +216,8 @@ func main() {
 	switch cmd {
 	case "replay":
 		replay(a, res)
+	case "seq3":
+		seq3(a, res)
 	case "record":
 		record(a, res)
 	case "auth":
@@ -349,10 +360,10 @@ func replayApply(w *world, e *big.Int, t Trans, res *hx.Result) {
 		return
 	}
 	after := snap(wit)
-	got := hx.M{"class": errClass(err), "idx": after.idx, "t": after.t, "valid": w.valid(wit)}
-	want := hx.M{"class": specClass(t.Act.Res), "idx": t.Pwit.Idx, "t": t.Pwit.T, "valid": t.Pwit.Good}
+	got := hx.M{"class": errClass(err), "idx": after.idx, "t": after.t, "valid": w.valid(wit), "updated": after.up}
+	want := hx.M{"class": specClass(t.Act.Res), "idx": t.Pwit.Idx, "t": t.Pwit.T, "valid": t.Pwit.Good, "updated": t.Pwit.Up}
 	res.Sample(hx.M{"transition": t, "observed": got})
-	if got["class"] != want["class"] || got["idx"] != want["idx"] || got["t"] != want["t"] || got["valid"] != want["valid"] {
+	if got["class"] != want["class"] || got["idx"] != want["idx"] || got["t"] != want["t"] || got["valid"] != want["valid"] || got["updated"] != want["updated"] {
 		res.Violation("apply-diverges", fmt.Sprintf("Witness.Update: spec %s -> %v, code -> %v (err=%v)", t.Act.Res, want, got, err),
 			hx.M{"case": t, "observed": got, "expected": want})
 		return
@@ -425,9 +436,9 @@ func replaySeq(w, foreign *world, e *big.Int, t Trans, res *hx.Result) {
 		return
 	}
 	after := snap(wit)
-	got := hx.M{"class": errClass(err), "idx": after.idx, "t": after.t, "valid": w.valid(wit)}
-	want := hx.M{"class": specClass(t.Act.Res), "idx": t.Pwit.Idx, "t": t.Pwit.T, "valid": t.Pwit.Good}
-	if got["class"] != want["class"] || got["idx"] != want["idx"] || got["t"] != want["t"] || got["valid"] != want["valid"] {
+	got := hx.M{"class": errClass(err), "idx": after.idx, "t": after.t, "valid": w.valid(wit), "updated": after.up}
+	want := hx.M{"class": specClass(t.Act.Res), "idx": t.Pwit.Idx, "t": t.Pwit.T, "valid": t.Pwit.Good, "updated": t.Pwit.Up}
+	if got["class"] != want["class"] || got["idx"] != want["idx"] || got["t"] != want["t"] || got["valid"] != want["valid"] || got["updated"] != want["updated"] {
 		res.Violation("state-left-by-failed-call", fmt.Sprintf("after a failed %s (%v) Witness.Update: spec %s -> %v, code -> %v (err=%v)",
 			t.Act1.Op, err1, t.Act.Res, want, got, err), hx.M{"case": t, "observed": got, "expected": want})
 	}
